@@ -137,6 +137,21 @@ def bounded_lookahead(R, rep):
         rep.unresolved("R1", "timeline-receivers", f"only {n} functions below the cascade receive the transaction slice")
 
 
+def _project_carriers(F, t):
+    """`carrier.field` of a locally built context struct (`LookAhead { cost_offsets, future_consumption, .. }`) stands for the
+    value the struct was built with, provided nothing in the workspace assigns that field: the other fields of the carrier
+    are then not part of the term"""
+    if not isinstance(t, tuple) or not t:
+        return t
+    if len(t) == 3 and t[0] == "field" and isinstance(t[1], tuple) and t[1] and t[1][0] == "var" and len(t[1]) > 2 \
+            and isinstance(t[1][2], tuple) and t[1][2] and t[1][2][0] == "agg":
+        init = t[1][2]
+        fv = dict(init[3]).get(t[2])
+        if fv is not None and not P._field_writes_anywhere(F, init[1], t[2]):
+            return _project_carriers(F, fv)
+    return tuple(_project_carriers(F, x) if isinstance(x, tuple) else x for x in t)
+
+
 def prepass_influence(R, rep):
     F = R.F
     d = R.require("dayloop")
@@ -161,7 +176,7 @@ def prepass_influence(R, rep):
     # in the 30-day producer the offsets reach the cost, never the quantity
     b, sites = R.leg("BedAndBreakfast")
     for bb, term, site in sites:
-        q = agg_fields(term)["quantity"]
+        q = _project_carriers(F, agg_fields(term)["quantity"])
         mentions = "cost_offsets" in show(q, 0) or any(isinstance(x, tuple) and x and x[0] == "param" and "Decimal]" in b.local_ty(x[1] + 1) for x in subterms(q))
         if not mentions:
             # a branch on an offset matters when anything but the choice of the offset VALUE depends on it: the blocks that are
